@@ -1602,7 +1602,8 @@ chop_more:
 		p->six += slen;
 
 	proc:
-		if (p->six && (res = _ical_proc(p)) == NULL) {
+		if (!p->six || (res = _ical_proc(p)) == NULL) {
+			/* empty lines are just skipped */
 			goto chop_more;
 		}
 	}
